@@ -34,24 +34,24 @@ Definition hop_ok (m : rmachine) (p : chip) (l : Z) (c : chip) : Prop :=
 
 (* ---- the content of a tree *)
 (* (parent chip, label, child chip) for every child that is a tree node *)
-Fixpoint hops (t : rtree) : list (chip * option Z * chip) :=
+Fixpoint tree_hops (t : rtree) : list (chip * option Z * chip) :=
   match t with
   | RLeaf _ => []
   | RNode c kids =>
       flat_map (fun k => match snd k with
-                         | RNode c' _ => (c, fst k, c') :: hops (snd k)
+                         | RNode c' _ => (c, fst k, c') :: tree_hops (snd k)
                          | RLeaf _ => []
                          end) kids
   end.
 
 (* (chip of the node, label, vertex) for every child that is a vertex *)
-Fixpoint leaves (t : rtree) : list (chip * option Z * Z) :=
+Fixpoint tree_leaves (t : rtree) : list (chip * option Z * Z) :=
   match t with
   | RLeaf _ => []
   | RNode c kids =>
       flat_map (fun k => match snd k with
                          | RLeaf v => [(c, fst k, v)]
-                         | RNode _ _ => leaves (snd k)
+                         | RNode _ _ => tree_leaves (snd k)
                          end) kids
   end.
 
@@ -85,11 +85,11 @@ Definition ValidTree (m : rmachine) (src : chip) (sinks : list sink_req) (t : rt
   (* every chip appears at most once *)
   /\ NoDup (chips t)
   (* every hop follows a working link from a working chip to the adjacent chip in that direction *)
-  /\ (forall p r c, In (p, r, c) (hops t) -> exists l, r = Some l /\ hop_ok m p l c)
+  /\ (forall p r c, In (p, r, c) (tree_hops t) -> exists l, r = Some l /\ hop_ok m p l c)
   (* no leaves other than the sinks' *)
-  /\ (forall c r v, In (c, r, v) (leaves t) -> exists rs, In (v, c, rs) sinks /\ In r rs)
+  /\ (forall c r v, In (c, r, v) (tree_leaves t) -> exists rs, In (v, c, rs) sinks /\ In r rs)
   (* every sink is a leaf of the node of its chip, once for each of its routes *)
-  /\ (forall v c rs r, In (v, c, rs) sinks -> In r rs -> In (c, r, v) (leaves t)).
+  /\ (forall v c rs r, In (v, c, rs) sinks -> In r rs -> In (c, r, v) (tree_leaves t)).
 
 (* ---- all working chips can reach each other over working links *)
 Definition edge (m : rmachine) (a b : chip) : Prop :=
@@ -146,9 +146,9 @@ Definition sink_present (lvs : list (chip * option Z * Z)) (s : sink_req) : bool
 Definition check_tree (m : rmachine) (src : chip) (sinks : list sink_req) (t : rtree) : bool :=
   root_is src t
   && nodup_chips (chips t)
-  && forallb (hop_okb m) (hops t)
-  && forallb (leaf_allowed sinks) (leaves t)
-  && forallb (sink_present (leaves t)) sinks.
+  && forallb (hop_okb m) (tree_hops t)
+  && forallb (leaf_allowed sinks) (tree_leaves t)
+  && forallb (sink_present (tree_leaves t)) sinks.
 
 (* connectivity: every working chip is found by a forward search from the first working chip and by a
    backward search from it *)
